@@ -109,8 +109,12 @@ func bubbleConfigs(thorough bool) []config {
 	return cs
 }
 
-func sockBody(cfg *config) func(c *explore.Ctx) {
+func sockBody(cfg *config, tr *tracker) func(c *explore.Ctx) {
 	return func(c *explore.Ctx) {
+		if memStop.Load() {
+			memStopped.Add(1)
+			c.Prune()
+		}
 		wk := c.User.(*worker)
 		var s *sockSys
 		defer func() {
@@ -119,8 +123,9 @@ func sockBody(cfg *config) func(c *explore.Ctx) {
 				s.cleanup()
 			}
 			if x != nil {
-				if d, ok := x.(discard); ok {
-					c.Outcome("discarded:" + d.why)
+				if _, ok := x.(discard); ok {
+					tr.discarded.Add(1)
+					c.Outcome("discarded")
 					return
 				}
 				panic(x)
@@ -128,13 +133,19 @@ func sockBody(cfg *config) func(c *explore.Ctx) {
 		}()
 		s = newSockSys(c, cfg, wk)
 		s.run()
-		c.Outcome(strings.Join(s.trace, " "))
+		tr.note(strings.Join(s.trace, " "))
+		c.Outcome("ok") // the explorer keeps a string per distinct outcome: distinct traces are counted by the tracker
 	}
 }
 
-func bubbleBody(t *testing.T, cfg *config) func(c *explore.Ctx) {
+func bubbleBody(t *testing.T, cfg *config, tr *tracker) func(c *explore.Ctx) {
 	return func(c *explore.Ctx) {
-		c.Outcome(runBubble(t, c, cfg))
+		if memStop.Load() {
+			memStopped.Add(1)
+			c.Prune()
+		}
+		tr.note(runBubble(t, c, cfg))
+		c.Outcome("ok")
 	}
 }
 
@@ -169,9 +180,9 @@ func TestCheck(t *testing.T) {
 			cfg := r.Config
 			var v *explore.Violation
 			if isSock(cfg.Kind) {
-				v, _, _ = explore.ReplayOnce(sockBody(&cfg), r.Choices, cfg.Budget, &worker{ip: procIP(200), port: 20000})
+				v, _, _ = explore.ReplayOnce(sockBody(&cfg, newTracker()), r.Choices, cfg.Budget, &worker{ip: procIP(200), port: 20000})
 			} else {
-				v, _, _ = explore.ReplayOnce(bubbleBody(t, &cfg), r.Choices, cfg.Budget, nil)
+				v, _, _ = explore.ReplayOnce(bubbleBody(t, &cfg, newTracker()), r.Choices, cfg.Budget, nil)
 			}
 			if v != nil {
 				res.Violations = append(res.Violations, hres.Viol{Key: v.Key, What: v.What, Replay: r})
@@ -186,30 +197,33 @@ func TestCheck(t *testing.T) {
 		var divergences int64
 		exhaustive := true
 		capHit := ""
-		add := func(cfg config, st *explore.Stats) {
-			d := 0
-			for o, n := range st.OutcomeHist {
-				if strings.HasPrefix(o, "discarded:") {
-					d += n
-				}
-			}
+		add := func(cfg config, st *explore.Stats, tr *tracker, memCapped bool) {
+			d := int(tr.discarded.Load())
+			nd := tr.distinct()
 			discarded += d
 			evals += int(st.Executions)
-			distinct += st.Outcomes
-			if d > 0 {
-				distinct--
-			}
+			distinct += nd
 			divergences += st.Divergences
+			if memCapped {
+				st.Exhaustive = false
+				if st.CapHit == "" {
+					st.CapHit = "memory_ceiling"
+				}
+			}
 			if !st.Exhaustive || d > 0 {
 				exhaustive = false
 			}
 			if st.CapHit != "" {
 				capHit = st.CapHit
 			}
-			perCfg[cfg.Name] = map[string]any{"executions": st.Executions, "distinct_outcomes": st.Outcomes, "budget": cfg.Budget, "exhaustive": st.Exhaustive,
+			perCfg[cfg.Name] = map[string]any{"executions": st.Executions, "distinct_outcomes": nd, "budget": cfg.Budget, "exhaustive": st.Exhaustive, "cap_hit": st.CapHit,
 				"max_depth": st.MaxDepthSeen, "wall_s": st.WallS, "discarded": d, "divergences": st.Divergences}
-			if len(st.Samples) > 0 && len(samples) < 40 {
-				samples = append(samples, map[string]any{"config": cfg.Name, "choices": st.Samples[0].Choices, "operations": st.Samples[0].Outcome})
+			if tr.sample != "" && len(samples) < 40 {
+				ch := ""
+				if len(st.Samples) > 0 {
+					ch = st.Samples[0].Choices
+				}
+				samples = append(samples, map[string]any{"config": cfg.Name, "choices": ch, "operations": tr.sample})
 			}
 			for _, v := range st.Violations {
 				if _, ok := viol[v.Key]; !ok {
@@ -223,6 +237,10 @@ func TestCheck(t *testing.T) {
 		// may use four times its fair share of the time that is left, so that one large tree cannot starve those after it.
 		end := env.Deadline.Add(-15 * time.Second)
 		var addMu sync.Mutex
+		// bounds on what one configuration may keep in memory: its set of distinct trace hashes (8 bytes each)
+		const maxExec = 4_000_000
+		stopWatchdog := startMemWatchdog()
+		defer stopWatchdog()
 		runList := func(all []config, sock bool) {
 			for i := range all {
 				cfg := all[i]
@@ -234,6 +252,8 @@ func TestCheck(t *testing.T) {
 					dl = end
 				}
 				var st *explore.Stats
+				tr := newTracker()
+				stopsBefore := memStopped.Load()
 				if sock {
 					sw := env.Workers * 3
 					if sw < 12 {
@@ -242,14 +262,16 @@ func TestCheck(t *testing.T) {
 					if sw > 32 {
 						sw = 32
 					}
-					st = explore.Run(sockBody(&cfg), explore.Options{Budget: cfg.Budget, Workers: sw, Deadline: dl, Samples: 1,
+					st = explore.Run(sockBody(&cfg, tr), explore.Options{Budget: cfg.Budget, Workers: sw, Deadline: dl, Samples: 1, MaxExec: maxExec,
 						Setup: func(w int) any { return &worker{ip: procIP(w + 1), port: 20000 + (w*131)%1000} }})
 				} else {
-					st = explore.Run(bubbleBody(t, &cfg), explore.Options{Budget: cfg.Budget, Workers: env.Workers, Deadline: dl, Samples: 1})
+					st = explore.Run(bubbleBody(t, &cfg, tr), explore.Options{Budget: cfg.Budget, Workers: env.Workers, Deadline: dl, Samples: 1, MaxExec: maxExec})
 				}
 				addMu.Lock()
-				add(cfg, st)
+				add(cfg, st, tr, memStopped.Load() > stopsBefore)
 				addMu.Unlock()
+				tr, st = nil, nil
+				afterConfig()
 			}
 		}
 		// socket configurations whose executions contain long real-time waits (write timeouts of a stopped receiver, held
@@ -284,29 +306,32 @@ func TestCheck(t *testing.T) {
 				"(sender section: write{1..2} then abort | precommit then commit | precommit then abort; receiver section: read/length{1..2} then commit | abort) in every interleaving " +
 				"with at most <budget> deviations (a deviation = switching away from a participant in the middle of its section, or reading an empty mailbox: timeout or read left blocked while senders go on), " +
 				"followed by a drain; distinct = distinct observed operation/answer traces",
-			"samples":                       samples,
-			"per_configuration":             perCfg,
-			"exhaustive":                    exhaustive,
-			"cap_hit":                       capHit,
-			"divergences":                   divergences,
-			"discarded_env_timeout":         discarded,
-			"env_timeouts":                  envTimeouts.Load(),
-			"spurious_aborts":               spuriousAborts.Load(),
-			"spurious_aborts_by_op":         spurious,
-			"unconfirmed_candidates":        unconfirmed(viol),
-			"expected_aborts":               expectedAborts.Load(),
-			"socket_operations":             sockOps.Load(),
-			"overlapped_reads":              overlappedReads.Load(),
-			"commit_acks_held_past_timeout": acksDelayed.Load(),
-			"of_which_sender_redialed":      acksResent.Load(),
-			"bulk_moves":                    bulkMoves.Load(),
-			"commits_left_in_flight":        commitsInFlight.Load(),
-			"stall_moves":                   stallMoves.Load(),
-			"bubble_operations":             bubbleOps.Load(),
-			"bubble_ticks":                  bubbleTicks.Load(),
-			"bubble_parked_ops":             bubbleBlocks.Load(),
-			"goroutines_at_end":             runtime.NumGoroutine(),
-			"not_covered":                   "connection failure; goroutine interleavings inside handleConn; more than 2 senders / 1 receiver; more sections than the bounds",
+			"samples":                          samples,
+			"per_configuration":                perCfg,
+			"exhaustive":                       exhaustive,
+			"cap_hit":                          capHit,
+			"divergences":                      divergences,
+			"discarded_env_timeout":            discarded,
+			"env_timeouts":                     envTimeouts.Load(),
+			"spurious_aborts":                  spuriousAborts.Load(),
+			"spurious_aborts_by_op":            spurious,
+			"unconfirmed_candidates":           unconfirmed(viol),
+			"expected_aborts":                  expectedAborts.Load(),
+			"socket_operations":                sockOps.Load(),
+			"overlapped_reads":                 overlappedReads.Load(),
+			"commit_acks_held_past_timeout":    acksDelayed.Load(),
+			"of_which_sender_redialed":         acksResent.Load(),
+			"bulk_moves":                       bulkMoves.Load(),
+			"commits_left_in_flight":           commitsInFlight.Load(),
+			"stall_moves":                      stallMoves.Load(),
+			"bubble_operations":                bubbleOps.Load(),
+			"bubble_ticks":                     bubbleTicks.Load(),
+			"bubble_parked_ops":                bubbleBlocks.Load(),
+			"goroutines_at_end":                runtime.NumGoroutine(),
+			"max_executions_per_configuration": maxExec,
+			"memory": map[string]any{"max_heap_mib": memMax.Load() >> 20, "peak_rss_mib": peakRSSKiB() >> 10, "soft_limit_mib": memSoftLimit >> 20, "ceiling_mib": memCeiling >> 20,
+				"executions_ended_by_ceiling": memStopped.Load()},
+			"not_covered": "connection failure; goroutine interleavings inside handleConn; more than 2 senders / 1 receiver; more sections than the bounds",
 		}
 		return res
 	})
